@@ -105,3 +105,58 @@ package dht
 //@   modifies c.NodeId
 //@   ensures kept-if-set: old(c.NodeId) != 0 ==> c.NodeId == old(c.NodeId)
 //@   ensures generated-id-verifies: old(c.NodeId) == 0 && c.PublicIP != nil && (c.Conn != nil || !c.NoSecurity) ==> first21(c.NodeId[0], c.NodeId[1], c.NodeId[2], bep42crc(c.PublicIP, c.NodeId[19]))
+
+// ---- C10: write tokens ----
+// A token is SHA-1 over the 16-byte form of the source IP, the 64-bit big-endian index of the time interval it
+// was issued in, and the server secret. The port does not enter it.
+
+// the address interface: IP() as a specification function
+//@ func (dht.Addr).IP
+//@   trusted
+//@   option uf
+//@   option noalloc
+//@   ensures result == self.IP()
+
+//@ spec def tok(ip string, ti mathint, secret string) string = bytes20(sha1of(scat(scat(to16(ip), be64(ti % 18446744073709551616)), secret)))
+// Go integer division truncates toward zero
+//@ spec def godiv(a mathint, b mathint) mathint = a >= 0 ? a / b : 0 - ((0 - a) / b)
+//@ spec def iplen(a dht.Addr) bool = len(a.IP()) == 4 || len(a.IP()) == 16
+
+// the token this server issues to addr at instant t (nanoseconds)
+//@ spec def tokat(ip string, secret string, interval mathint, t mathint) string = tok(ip, godiv(t, interval), secret)
+
+//@ func (dht.tokenServer).createToken
+//@   arith int
+//@   requires addr: addr != nil && iplen(addr)
+//@   requires interval: me.interval > 0
+//@   ensures token: result == old(tok(bstr(addr.IP()), godiv(tn(t), math(me.interval)), bstr(me.secret)))
+
+//@ func (*dht.tokenServer).getTimeNow@timeNow
+//@   trusted
+//@   option now
+//@ func (*dht.tokenServer).getTimeNow
+//@   arith int
+//@   requires nonnil: me != nil
+//@   option now
+//@   ensures the-clock: result == lastnow()
+
+//@ func (*dht.tokenServer).ValidToken
+//@   arith int
+//@   requires nonnil: me != nil
+//@   requires addr: addr != nil && iplen(addr)
+//@   requires config: me.interval > 0 && me.maxIntervalDelta == 2
+//@   ensures window: result == (token == tokat(old(bstr(addr.IP())), old(bstr(me.secret)), old(math(me.interval)), tn(lastnow())) || token == tokat(old(bstr(addr.IP())), old(bstr(me.secret)), old(math(me.interval)), tn(lastnow()) - old(math(me.interval))) || token == tokat(old(bstr(addr.IP())), old(bstr(me.secret)), old(math(me.interval)), tn(lastnow()) - old(math(me.interval)) - old(math(me.interval))))
+//@   loop 1
+//@     unroll 4
+
+//@ func (dht.tokenServer).CreateToken
+//@   arith int
+//@   requires addr: addr != nil && iplen(addr)
+//@   requires interval: me.interval > 0
+//@   ensures token-of-now: result == tok(old(bstr(addr.IP())), godiv(tn(lastnow()), math(me.interval)), old(bstr(me.secret)))
+
+// The acceptance window, as arithmetic over the interval index (I = interval length > 0, t0 = issue time,
+// now = validation time, both after the epoch): a token is honoured for at least two whole intervals (10 minutes
+// for the configured 5-minute interval) and never once three intervals (15 minutes) have passed.
+//@ lemma int-token-honoured-two-intervals: forall t0, now, I mathint :: I > 0 && t0 >= 0 && now >= t0 && now - t0 <= 2 * I ==> godiv(now, I) == godiv(t0, I) || godiv(now - I, I) == godiv(t0, I) || godiv(now - I - I, I) == godiv(t0, I)
+//@ lemma int-token-refused-after-three-intervals: forall t0, now, I mathint :: I > 0 && t0 >= 0 && now - t0 >= 3 * I ==> godiv(now, I) != godiv(t0, I) && godiv(now - I, I) != godiv(t0, I) && godiv(now - I - I, I) != godiv(t0, I)
